@@ -8,7 +8,7 @@
    hypothesis [value_ok]. *)
 From Coq Require Import ZArith List Lia Bool String Ascii Sorted.
 From PV Require Import Base.Tok Base.NpSearch Base.NpList C16.Model C16.Spec C03.Model C03.Spec
-                       C10.Model C10.Spec C10.Proofs.
+                       C10.Model C10.Spec C10.Proofs C10.Proofs2 C10.Proofs3 C10.Proofs4.
 Import ListNotations.
 Local Open Scope Z_scope.
 
@@ -63,7 +63,173 @@ Theorem C10_tolerant :
 Proof. exact tolerant. Qed.
 Print Assumptions C10_tolerant.
 
+(* ---------------------------------------------------------------------------------------------
+   The disk after a history, file by file: the content of a metadata file is that of the LAST
+   operation that wrote it (save_metadata(f, .) writes cluster_<f>.tsv, a foreign write writes its
+   own name), else what the directory held initially; file names stay pairwise distinct. *)
+Theorem C10_disk_last_write :
+  forall (classify : string -> cell) (d0 : disk) (ops : list op) (n : fname),
+  dget fname_eqb n (d_files (run classify d0 ops)) = hist_file classify d0 ops n /\
+  d_clusters (run classify d0 ops) = hist_clusters d0 ops.
+Proof. intros. split; [apply run_files | apply run_clusters]. Qed.
+Print Assumptions C10_disk_last_write.
+
+(* "the last operation that ..." ([last_some]) means what it says: the answer of an element after
+   which no element answers *)
+Theorem C10_last_meaning : forall (X Y : Type) (f : X -> option Y) (l : list X) (y : Y),
+  last_some f l = Some y <->
+  exists pre x post, l = pre ++ x :: post /\ f x = Some y /\ Forall (fun z => f z = None) post.
+Proof. exact @last_some_char. Qed.
+Print Assumptions C10_last_meaning.
+
+(* ---------------------------------------------------------------------------------------------
+   Last write wins, metadata.  History: anything, then save_metadata(f, m), then anything that does
+   not write cluster_<f>.tsv again.  Reading: f is not "cluster_id", cluster_<f>.tsv is not the
+   excluded cluster_info.tsv, m is a dict (distinct keys), and no OTHER visible file of the final
+   directory gives values to f ([others_silent]; glob order is then irrelevant -- whatever the order
+   of [d_files]).  Then a fresh model shows, for every key k,
+       metadata[f][k] = saved_get m k
+   i.e. for an integer cluster id c: the value m[c] as csv/_try_make_number read it back when m[c]
+   is not None and its text is not empty, and nothing otherwise -- nothing for ids absent from m
+   even if an EARLIER save of f had them (replaced, not merged), nothing for non-integer keys. *)
+Theorem C10_last_write_wins_meta :
+  forall (classify : string -> cell) (d0 : disk) (pre post : list op) (f : string)
+         (m : list (Z * option value)) (k : value) (l : loaded),
+  NoDup (map fst (d_files d0)) -> f <> "cluster_id"%string -> excluded (meta_name f) = false ->
+  NoDup (map fst m) ->
+  Forall (fun o => op_writes classify (meta_name f) o = None) post ->
+  let d := run classify d0 (pre ++ SaveMeta f m :: post) in
+  others_silent (d_files d) (meta_name f) f ->
+  view d = Some l ->
+  meta_get (v_meta l) f k = saved_get classify m k.
+Proof. exact last_write_meta. Qed.
+Print Assumptions C10_last_write_wins_meta.
+
+(* ... and under the reading of the statement (integers, floats, strings that are not numeric and
+   not empty) the value read back is the value saved *)
+Theorem C10_saved_value_shown :
+  forall (classify : string -> cell) (m : list (Z * option value)) (c : Z) (v : value),
+  dget Z.eqb c m = Some (Some v) -> value_ok classify v -> saved_get classify m (VInt c) = Some v.
+Proof. intros classify m c v H Hok. cbn [saved_get]. rewrite H. now apply shown_ok. Qed.
+Print Assumptions C10_saved_value_shown.
+
+(* the written file itself: as read by load_metadata it defines exactly the field f, with the
+   saved mapping (None dropped); in particular it never defines another field *)
+Theorem C10_meta_file_reading :
+  forall (classify : string -> cell) (f : string) (m : list (Z * option value)) (g : string) (k : value),
+  f <> "cluster_id"%string -> NoDup (map fst m) ->
+  file_get (meta_file classify f m) g k = if String.eqb g f then saved_get classify m k else None.
+Proof. exact meta_file_get. Qed.
+Print Assumptions C10_meta_file_reading.
+
+(* ---------------------------------------------------------------------------------------------
+   "... next to metadata found in other TSV/CSV files."  A file written by a foreign write (or
+   present initially) and not written again shows, for every field f that no other visible file
+   gives values to, the declarative reading of its table: the value of the last row that has both a
+   cluster id equal to k and a non-empty cell under f ([file_get]; nothing for unreadable files). *)
+Theorem C10_foreign_fields :
+  forall (classify : string -> cell) (d0 : disk) (pre post : list op) (n : fname) (c : mfile)
+         (f : string) (k : value) (l : loaded),
+  NoDup (map fst (d_files d0)) -> excluded n = false ->
+  Forall (fun o => op_writes classify n o = None) post ->
+  let d := run classify d0 (pre ++ WriteForeign n c :: post) in
+  others_silent (d_files d) n f ->
+  view d = Some l ->
+  meta_get (v_meta l) f k = file_get c f k.
+Proof. exact foreign_fields. Qed.
+Print Assumptions C10_foreign_fields.
+
+Theorem C10_initial_fields :
+  forall (classify : string -> cell) (d0 : disk) (ops : list op) (n : fname) (c : mfile)
+         (f : string) (k : value) (l : loaded),
+  NoDup (map fst (d_files d0)) -> excluded n = false ->
+  dget fname_eqb n (d_files d0) = Some c ->
+  Forall (fun o => op_writes classify n o = None) ops ->
+  let d := run classify d0 ops in
+  others_silent (d_files d) n f ->
+  view d = Some l ->
+  meta_get (v_meta l) f k = file_get c f k.
+Proof. exact initial_fields. Qed.
+Print Assumptions C10_initial_fields.
+
+(* nothing comes from nowhere: a field to which no visible file gives a value is not shown; files
+   whose reading raises and cluster_info.* are silent for every field *)
+Theorem C10_no_field_from_nowhere :
+  forall (d : disk) (f : string) (k : value) (l : loaded),
+  (forall n c, In (n, c) (d_files d) -> silent f (n, c)) -> view d = Some l ->
+  meta_get (v_meta l) f k = None.
+Proof. exact no_field_from_nowhere. Qed.
+Print Assumptions C10_no_field_from_nowhere.
+
+Theorem C10_unreadable_and_info_silent :
+  forall (n : fname) (e : ext) (c : mfile) (f : string),
+  silent f (n, FRaise) /\ silent f (mkname "cluster_info" e, c).
+Proof. intros. split; [apply raise_silent | apply info_silent]. Qed.
+Print Assumptions C10_unreadable_and_info_silent.
+
+(* the dictionaries of read_tsv / load_metadata compute the declarative reading of a table *)
+Theorem C10_table_reading :
+  forall (header : list string) (rows : list (list cell)) (f : string) (k : value),
+  meta_get (load_table header rows) f k = table_get header rows f k.
+Proof. exact load_table_get. Qed.
+Print Assumptions C10_table_reading.
+
+(* the reading is needed: a field saved as "info" lands in cluster_info.tsv, which is never loaded *)
+Theorem C10_info_field_not_shown :
+  exists d0 m, clusters_ok (d_clusters d0) (d_rest d0) /\
+    option_map (fun l => meta_get (v_meta l) "info" (VInt 0))
+               (view (run CText d0 [SaveMeta "info" m])) = Some None /\
+    saved_get CText m (VInt 0) = Some (VStr "x").
+Proof.
+  exists (mkdisk [0; 1] [] None (mkrest [0; 1] [1; 2] [] None [] 2 [[0]; [0]])), [(0, Some (VStr "x"))].
+  split; [split; [reflexivity | repeat constructor; lia]|]. split; vm_compute; reflexivity.
+Qed.
+Print Assumptions C10_info_field_not_shown.
+
+(* ---------------------------------------------------------------------------------------------
+   Subset store.  History: anything, save_spikes_subset_waveforms selecting the spikes [ids]
+   (increasing ids, as SpikeSelector returns them) with channel-table width w, then anything but a
+   new extraction.  On a well-formed dataset with raw data ([rest_ok]: rectangular recording,
+   chunks tiling it, sorted spike samples inside it, template channels inside the channel range)
+   the store a fresh model loads is [expected_store]: the ids, the rows chan_row(w, best channels of
+   the spike's template), and for each spike the raw zero-padded window on that row
+   (C03.Spec.window) -- the file written chunk by chunk loads (C03_export) and is those windows. *)
+Theorem C10_subset :
+  forall (classify : string -> cell) (d0 : disk) (pre post : list op) (data : list (list Z))
+         (ids : list Z) (w : Z) (l : loaded),
+  rest_ok (d_rest d0) -> r_raw (d_rest d0) = Some data -> ids_ok (d_rest d0) ids -> 0 <= w ->
+  Forall (fun o => op_subset o = None) post ->
+  view (run classify d0 (pre ++ SaveSubset ids w :: post)) = Some l ->
+  exists st, expected_store (d_rest d0) data ids w = Some st /\ v_store l = Some st.
+Proof. exact subset_after_history. Qed.
+Print Assumptions C10_subset.
+
+(* what the expected store contains, cell by cell and without default values: entry j belongs to
+   spike ids[j], its channel row is that of the spike's template, its waveform satisfies C03's
+   Window_Spec (raw sample inside the recording on a real channel, zero outside / on -1) *)
+Theorem C10_subset_meaning :
+  forall (r : rest) (data : list (list Z)) (c : Z) (ids : list Z) (w : Z) (st : store (A := Z)),
+  rect c data -> 1 <= c -> 0 <= r_nsw r ->
+  Forall (fun best => Forall (fun ch => 0 <= ch < c) best) (r_best r) ->
+  expected_store r data ids w = Some st ->
+  st_ids st = ids /\ List.length (st_ch st) = List.length ids /\ List.length (st_w st) = List.length ids /\
+  forall j i, nth_error ids j = Some i ->
+    exists sp wv, subset_spike r w i = Some sp /\ nth_error (st_ch st) j = Some (sp_ch sp) /\
+                  nth_error (st_w st) j = Some wv /\
+                  Window_Spec 0 data (sp_s sp) (r_nsw r) (sp_ch sp) wv.
+Proof. exact expected_store_meaning. Qed.
+Print Assumptions C10_subset_meaning.
+
+(* without a raw data file nothing is extracted and the store files stay as they were *)
+Theorem C10_subset_needs_raw :
+  forall (classify : string -> cell) (d0 : disk) (ops : list op),
+  r_raw (d_rest d0) = None -> d_subset (run classify d0 ops) = d_subset d0.
+Proof. exact subset_needs_raw. Qed.
+Print Assumptions C10_subset_needs_raw.
+
 (* ---- non-vacuity ---- *)
+Local Open Scope string_scope.
+Local Open Scope Z_scope.
 Definition ex_rest : rest :=
   mkrest [0; 1; 1] [1; 2; 4] [TNum 1 0; TNum 1 1; TNum 1 2]
          (Some [[1; 2]; [11; 12]; [21; 22]; [31; 32]; [41; 42]; [51; 52]]) [mkiv 0 4; mkiv 4 6] 2 [[0; 1]; [1]].
@@ -76,4 +242,35 @@ Example C10_ex_clusters :
 Proof. vm_compute. reflexivity. Qed.
 Example C10_ex_tolerant_fails :
   view (run CText ex_d0 [SaveClusters [2; 0]]) = None /\ view (run CText ex_d0 [SaveClusters [2; -1; 0]]) = None.
+Proof. vm_compute. split; reflexivity. Qed.
+
+(* overwrite, not merge; None and '' dropped; a foreign file next to it; cluster_info ignored *)
+Definition ex_hist : list op :=
+  [SaveMeta "group" [(0, Some (VStr "good")); (1, Some (VStr "mua")); (2, None)];
+   WriteForeign (mkname "labels" Csv) (FTable ["cluster_id"; "ks"] [[CInt 3; CText "a"]; [CInt 3; CText "later"]; [CText ""; CText "lost"]]);
+   WriteForeign (mkname "cluster_info" Tsv) (FTable ["cluster_id"; "group"] [[CInt 0; CText "zzz"]]);
+   WriteForeign (mkname "junk" Tsv) FRaise;
+   Reload;
+   SaveMeta "group" [(1, Some (VStr "noise")); (4, Some (VFloat (TNum 5 (-1)))); (5, Some (VStr ""))]].
+Example C10_ex_meta :
+  option_map (fun l => (meta_get (v_meta l) "group" (VInt 0), meta_get (v_meta l) "group" (VInt 1),
+                        meta_get (v_meta l) "group" (VInt 4), meta_get (v_meta l) "group" (VInt 5),
+                        meta_get (v_meta l) "ks" (VInt 3)))
+             (view (run CText ex_d0 ex_hist))
+  = Some (None, Some (VStr "noise"), Some (VFloat (TNum 5 (-1))), None, Some (VStr "later")).
+Proof. vm_compute. reflexivity. Qed.
+(* the premises of C10_last_write_wins_meta hold on this history: the other visible files do not
+   define "group" *)
+Example C10_ex_meta_premises :
+  forallb (fun nf => excluded (fst nf) || fname_eqb (fst nf) (meta_name "group") || negb (defines_b (snd nf) "group"))
+          (d_files (run CText ex_d0 ex_hist)) = true.
+Proof. vm_compute. reflexivity. Qed.
+(* subset: spikes 0 and 2 (samples 1 and 4) of ex_d0, width 3; the window of spike 0 overflows the start *)
+Example C10_ex_subset :
+  option_map v_store (view (run CText ex_d0 [SaveSubset [0; 2] 3; SaveClusters [4; 4; 4]; Reload]))
+  = Some (Some (mkstore [0; 2] [[0; 1; -1]; [1; -1; -1]]
+                        [[[1; 2; 0]; [11; 12; 0]]; [[32; 0; 0]; [42; 0; 0]]])).
+Proof. vm_compute. reflexivity. Qed.
+Example C10_ex_subset_premises :
+  tiles_b 6 (r_chunks ex_rest) = true /\ sortedZb (r_samples ex_rest) = true.
 Proof. vm_compute. split; reflexivity. Qed.
